@@ -124,8 +124,41 @@ Definition t_profile (p : profile) : tree :=
 Definition kd := read_kinds_of_code.
 Definition pcap := precap_of_code.
 
-Definition on_reader {A} (p : nat -> prog A) (r : reader) : res A :=
-  fst (fst (exec kd (p (dec_fuel (rest r))) r 0)).
+(** Running a decoder [D] (parametrised by its loop fuel) on a reader: the fuel is the linear
+    function [dec_fuel] of the number of bytes the stream still holds.
+    Result: (outcome, reader afterwards, bytes allocated). *)
+Definition run_on {A} (k : site -> read_kind) (D : nat -> prog A) (r : reader) : res A * reader * N :=
+  exec k (D (dec_fuel (rest r))) r 0.
+Definition outcome {A} (x : res A * reader * N) : res A := fst (fst x).
+Definition allocated {A} (x : res A * reader * N) : N := snd x.
+
+Definition on_reader {A} (p : nat -> prog A) (r : reader) : res A := outcome (run_on kd p r).
+
+(** Specification vocabulary of C17 / C18 (statements only; proofs in proofs/DecTop_proofs.v).
+
+    [robust D c k]: on EVERY well-formed byte string b (each byte < 256), the decoder D read
+    from bytes.NewReader(b) does not panic, does not exhaust its fuel (dec_fuel b = |b| + 2,
+    so its loops terminate within a linear number of iterations), and allocates at most
+    c*|b| + k bytes.
+    [chunk_independent D]: for every table of read kinds that is all-Full (what the
+    translator extracts from the source), EVERY byte string s (valid or not), EVERY partition
+    p of it into successive reads (empty reads included) and either way of delivering EOF,
+    D decodes the same value / fails with the same error class as on the whole buffer. *)
+Definition robust {A} (D : nat -> prog A) (c k : N) : Prop :=
+  forall b, wf_bytes b ->
+    let x := run_on read_kinds_of_code D (whole b) in
+    outcome x <> Panic /\ outcome x <> Err CFuel /\
+    allocated x <= c * N.of_nat (length b) + k.
+
+Definition chunk_independent {A} (D : nat -> prog A) : Prop :=
+  forall (k : string -> read_kind), all_full k ->
+  forall (s : bytes) (p : list nat) (eof_with_data : bool),
+    outcome (run_on (kinds_of k) D (chunked p s eof_with_data))
+    = outcome (run_on (kinds_of k) D (whole s)) /\
+    allocated (run_on (kinds_of k) D (chunked p s eof_with_data))
+    = allocated (run_on (kinds_of k) D (whole s)) /\
+    rest (snd (fst (run_on (kinds_of k) D (chunked p s eof_with_data))))
+    = rest (snd (fst (run_on (kinds_of k) D (whole s)))).
 
 Definition run_C18 (c : tree) : tree :=
   let kind := d_nat (d_nth 0 c) in
